@@ -1579,6 +1579,10 @@ class InBodyPhase(Phase):
             furthestBlock.appendChild(clone)
 
             # Step 14
+            if self.tree.activeFormattingElements.index(formattingElement) < bookmark:
+                # the bookmark was moved past later entries: removing the
+                # formatting element shifts them down by one
+                bookmark -= 1
             self.tree.activeFormattingElements.remove(formattingElement)
             self.tree.activeFormattingElements.insert(bookmark, clone)
 
